@@ -117,4 +117,333 @@ theorem userSendPing_wakes (c : Conn) (u : UserPings) (hu : c.pingPong.userPings
   refine ⟨trivial, fun t ht => ?_⟩
   simp [newWakes, Streams.wake, ht]
 
+-- ===================================================================== `poll_complete` parks the connection task
+
+theorem panic_actions (s : Streams) (m : String) : (s.panic m).actions = s.actions := by
+  unfold Streams.panic; split <;> rfl
+
+theorem qPush_task (s : Streams) (q : QName) (k : Nat) : (s.qPush q k).1.actions.task = s.actions.task := by
+  unfold Streams.qPush
+  split
+  · rfl
+  · show (Streams.setQ _ q _).actions.task = _
+    cases q <;> simp [Streams.setQ, Streams.modPrio, Streams.modRecv, modStream_actions]
+
+theorem reclaimFrame_task (s : Streams) (w : Writer) : (s.reclaimFrame w).1.actions.task = s.actions.task := by
+  unfold Streams.reclaimFrame
+  split
+  · next w1 frame _ =>
+    show (s.reclaimFrameInner frame).1.actions.task = _
+    unfold Streams.reclaimFrameInner
+    simp only
+    split
+    · simp [panic_actions, Streams.modPrio]
+    · simp [Streams.modPrio]
+    · split
+      · simp only
+        split
+        · rw [qPush_task]; simp [modStream_actions, Streams.modPrio]
+        · simp [modStream_actions, Streams.modPrio]
+      · simp [Streams.modPrio]
+  · rfl
+
+/-- `Streams::poll_complete` answers `Ready` only after registering the connection task (under the
+    lock, after `buffer_pending` found nothing more to write) -/
+theorem pollComplete_ready_parks (n : Nat) (s s' : Streams) (w w' : Writer) (io io' : Tio) (tag : String)
+    (h : Streams.pollComplete n s w io tag = (s', w', io', .ready)) : s'.actions.task = some tag := by
+  induction n generalizing s w io with
+  | zero => unfold Streams.pollComplete at h; cases h
+  | succ n ih =>
+    unfold Streams.pollComplete at h
+    rcases hp : pollReadyW w io tag with ⟨w1, io1, r1⟩
+    rw [hp] at h
+    cases r1 with
+    | pending => cases h
+    | err k => cases h
+    | ready =>
+      simp only at h
+      rcases hb : Streams.bufferPending (n + 1) s w1 with ⟨s2, w2, st⟩
+      rw [hb] at h
+      cases st with
+      | codecFull => exact ih _ _ _ h
+      | complete =>
+        simp only at h
+        rcases hf : flush w2 io1 tag with ⟨w3, io3, r3⟩
+        rw [hf] at h
+        cases r3 with
+        | pending => cases h
+        | err k => cases h
+        | ready =>
+          simp only at h
+          rcases hr : Streams.reclaimFrame { s2 with actions := { s2.actions with task := some tag } } w3 with ⟨s4, w4, b⟩
+          rw [hr] at h
+          cases b with
+          | true => exact ih _ _ _ h
+          | false =>
+            simp only [Bool.not_false, if_true] at h
+            obtain ⟨rfl, _⟩ := Prod.mk.inj h
+            have := reclaimFrame_task { s2 with actions := { s2.actions with task := some tag } } w3
+            rw [hr] at this
+            exact this
+
+theorem unsetFrame_fields (x : Writer) :
+    x.unsetFrame.next = none ∧ x.unsetFrame.bufLen = 0 ∧ x.unsetFrame.cap = x.cap ∧
+    x.unsetFrame.chainThreshold = x.chainThreshold := by
+  unfold Writer.unsetFrame
+  simp only
+  split
+  · exact ⟨rfl, rfl, rfl, rfl⟩
+  · next h => exact ⟨h, rfl, rfl, rfl⟩
+
+theorem flush_ready_capacity {w w' : Writer} {io io' : Tio} {tag : String} (h : flush w io tag = (w', io', .ready)) :
+    w'.next = none ∧ w'.bufLen = 0 ∧ w'.cap = w.cap ∧ w'.chainThreshold = w.chainThreshold := by
+  unfold flush at h
+  simp only at h
+  repeat' split at h
+  all_goals first
+    | (cases h; done)
+    | (simp only [Prod.mk.injEq] at h; obtain ⟨rfl, _, _⟩ := h; exact unsetFrame_fields _)
+    | (simp only [Prod.mk.injEq] at h; exact absurd h.2.2 (by simp))
+
+/-- `FramedWrite::poll_ready` answers `Pending` only with the transport holding the waker — or, after a
+    complete flush, when the buffer's capacity is below the minimum (never the case: the capacity only grows) -/
+theorem pollReadyW_pending_parks {w w' : Writer} {io io' : Tio} {tag : String}
+    (h : pollReadyW w io tag = (w', io', .pending)) (hcap : w'.cap ≥ w'.minBufferCapacity) :
+    io'.writeWaker = some tag := by
+  unfold pollReadyW at h
+  split at h
+  · rcases hf : flush w io tag with ⟨w1, io1, r1⟩
+    rw [hf] at h
+    cases r1 with
+    | pending => simp only at h; cases h; exact flush_pending_parks hf
+    | err k => cases h
+    | ready =>
+      simp only at h
+      obtain ⟨h1, h2, h3, h4⟩ := flush_ready_capacity hf
+      have hc : w1.hasCapacity = true := by
+        have e : w1 = w' := by
+          have := congrArg Prod.fst h; simpa using this
+        subst e
+        simp only [Writer.hasCapacity, h1, h2, Option.isNone_none, Bool.true_and, decide_eq_true_eq]
+        exact hcap
+      simp [hc] at h
+  · cases h
+
+theorem panic_panicked (s : Streams) (m : String) : (s.panic m).panicked ≠ none := by
+  unfold Streams.panic
+  split
+  · next h => rw [h]; exact Option.some_ne_none _
+  · exact Option.some_ne_none _
+
+/-- `Streams::poll_complete` answers `Pending` only with the transport holding the connection's waker -/
+theorem pollComplete_pending_parks (n : Nat) (s s' : Streams) (w w' : Writer) (io io' : Tio) (tag : String)
+    (h : Streams.pollComplete n s w io tag = (s', w', io', .pending)) (hp : s'.panicked = none)
+    (hcap : w'.cap ≥ w'.minBufferCapacity) : io'.writeWaker = some tag := by
+  induction n generalizing s w io with
+  | zero =>
+    unfold Streams.pollComplete at h
+    obtain ⟨rfl, _⟩ := Prod.mk.inj h
+    exact absurd hp (panic_panicked _ _)
+  | succ n ih =>
+    unfold Streams.pollComplete at h
+    rcases hpr : pollReadyW w io tag with ⟨w1, io1, r1⟩
+    rw [hpr] at h
+    cases r1 with
+    | pending =>
+      simp only at h
+      obtain ⟨_, h2⟩ := Prod.mk.inj h
+      obtain ⟨rfl, h3⟩ := Prod.mk.inj h2
+      obtain ⟨rfl, _⟩ := Prod.mk.inj h3
+      exact pollReadyW_pending_parks hpr hcap
+    | err k => cases h
+    | ready =>
+      simp only at h
+      rcases hb : Streams.bufferPending (n + 1) s w1 with ⟨s2, w2, st⟩
+      rw [hb] at h
+      cases st with
+      | codecFull => exact ih _ _ _ h
+      | complete =>
+        simp only at h
+        rcases hf : flush w2 io1 tag with ⟨w3, io3, r3⟩
+        rw [hf] at h
+        cases r3 with
+        | pending =>
+          simp only at h
+          obtain ⟨_, h2⟩ := Prod.mk.inj h
+          obtain ⟨_, h3⟩ := Prod.mk.inj h2
+          obtain ⟨rfl, _⟩ := Prod.mk.inj h3
+          exact flush_pending_parks hf
+        | err k => cases h
+        | ready =>
+          simp only at h
+          rcases hr : Streams.reclaimFrame { s2 with actions := { s2.actions with task := some tag } } w3 with ⟨s4, w4, b⟩
+          rw [hr] at h
+          cases b with
+          | true => exact ih _ _ _ h
+          | false => simp at h
+
+/-- **`Connection::poll` answers `Pending` only after parking the polling task** `c'.cx`: in
+    `Actions.task` (woken by every handle operation that gives the connection work — C06 (D)) or,
+    when the codec cannot take more, on the transport's write waker.  (On top of that `poll2`
+    parks it on the read waker when it runs out of input.)  For every state, fuel, configuration;
+    `hp`: the model did not flag a panic (none is reachable) — `hcap`: the write buffer's capacity is
+    at least `chain_threshold + 9`, which holds from `Conn.init` on since the capacity only grows. -/
+theorem protoPoll_pending_parks (n : Nat) (c c' : Conn) (h : Conn.protoPoll n c = (c', .pending))
+    (hp : c'.streams.panicked = none) (hcap : c'.codec.w.cap ≥ c'.codec.w.minBufferCapacity) :
+    c'.streams.actions.task = some c'.cx ∨ c'.codec.io.writeWaker = some c'.cx := by
+  induction n generalizing c with
+  | zero =>
+    unfold Conn.protoPoll at h
+    obtain ⟨rfl, _⟩ := Prod.mk.inj h
+    exact absurd hp (panic_panicked _ _)
+  | succ n ih =>
+    unfold Conn.protoPoll at h
+    split at h
+    · -- Open
+      rcases hp2 : Conn.poll2 (n + 1) c with ⟨c1, r1⟩
+      rw [hp2] at h
+      cases r1 with
+      | ready res =>
+        simp only at h
+        rcases hh : c1.handlePoll2Result res with ⟨c2, r2⟩
+        rw [hh] at h
+        cases r2 with
+        | ok u => exact ih _ h
+        | error e => cases h
+      | pending =>
+        simp only at h
+        rcases hpc : Streams.pollComplete (n + 1) c1.streams c1.codec.w c1.codec.io c1.cx with ⟨s2, w2, io2, r2⟩
+        rw [hpc] at h
+        cases r2 with
+        | pending =>
+          simp only at h
+          obtain ⟨rfl, _⟩ := Prod.mk.inj h
+          exact Or.inr (pollComplete_pending_parks _ _ _ _ _ _ _ _ hpc hp hcap)
+        | err k => cases h
+        | ready =>
+          simp only at h
+          split at h
+          · exact ih _ h
+          · obtain ⟨rfl, _⟩ := Prod.mk.inj h
+            exact Or.inl (pollComplete_ready_parks _ _ _ _ _ _ _ _ hpc)
+    · -- Closing
+      next r i hst =>
+      rcases hs : shutdownW c.codec.w c.codec.io c.cx with ⟨w, io, r'⟩
+      rw [hs] at h
+      cases r' with
+      | ready => exact ih _ h
+      | err k => cases h
+      | pending =>
+        simp only at h
+        obtain ⟨rfl, _⟩ := Prod.mk.inj h
+        exact Or.inr (shutdownW_pending_parks hs)
+    · -- Closed
+      cases h
+
+/-- the client's `Connection::poll` likewise (its self-wake only writes to the wake log) -/
+theorem clientPoll_pending_parks (n : Nat) (c c' : Conn) (h : Conn.clientPoll n c = (c', .pending))
+    (hp : c'.streams.panicked = none) (hcap : c'.codec.w.cap ≥ c'.codec.w.minBufferCapacity) :
+    c'.streams.actions.task = some c'.cx ∨ c'.codec.io.writeWaker = some c'.cx := by
+  unfold Conn.clientPoll at h
+  simp only at h
+  rcases hpp : Conn.protoPoll n (if (!c.hasStreamsOrOtherReferences) = true then c.goAwayNow NO_ERROR else c) with ⟨c1, r1⟩
+  rw [hpp] at h
+  simp only at h
+  obtain ⟨hc, hr⟩ := Prod.mk.inj h
+  subst hr
+  have hcase : c' = c1 ∨ c' = { c1 with streams := c1.streams.wake [c1.cx] } := by
+    rw [← hc]
+    by_cases hh : ((match (PollRes.pending : PollRes) with | .pending => true | _ => false) &&
+        (if (!c.hasStreamsOrOtherReferences) = true then c.goAwayNow NO_ERROR else c).hasStreamsOrOtherReferences &&
+        !c1.hasStreamsOrOtherReferences) = true
+    · rw [if_pos hh]; exact Or.inr rfl
+    · rw [if_neg hh]; exact Or.inl rfl
+  have e1 : c'.streams.actions.task = c1.streams.actions.task := by rcases hcase with e | e <;> rw [e] <;> rfl
+  have e2 : c'.streams.panicked = c1.streams.panicked := by rcases hcase with e | e <;> rw [e] <;> rfl
+  have e3 : c'.codec = c1.codec := by rcases hcase with e | e <;> rw [e]
+  have e4 : c'.cx = c1.cx := by rcases hcase with e | e <;> rw [e]
+  rw [e1, e3, e4]
+  exact protoPoll_pending_parks n _ c1 hpp (e2 ▸ hp) (e3 ▸ hcap)
+
+-- ===================================================================== `Drop for Connection`
+
+theorem Resolved.of_sstep {w : List String} {a b : Stream} (h : Resolved a) (hs : SStep w a b) : Resolved b := by
+  obtain ⟨c, h1, h2, h3, h4⟩ := h
+  exact ⟨hs.closed c, (h1 ▸ hs.sendTask).none_of_none, (h2 ▸ hs.openTask).none_of_none,
+    (h3 ▸ hs.recvTask).none_of_none, (h4 ▸ hs.pushTask).none_of_none⟩
+
+theorem Done.of_step {k : Nat} {t t' : Streams} (h : Done k t) (hk : k < t.store.nextKey) (hs : Step none t t') :
+    Done k t' := by
+  rcases h with h | ⟨b, hb, hres⟩
+  · exact Or.inl (hs.fresh k hk h)
+  · rcases hs.keep k b hk hb with h' | ⟨c, hc, hbc⟩
+    · exact Or.inl h'
+    · exact Or.inr ⟨c, hc, hres.of_sstep hbc⟩
+
+theorem dropSr_step (s : Streams) (sr : SendRequest) :
+    Step none s (match sr.pending with | some p => s.dropHandle.dropStreamRef p | none => s.dropHandle) := by
+  split
+  · exact dropStreamRef_acc _ (dropHandle_acc (Step.refl _ _))
+  · exact dropHandle_acc (Step.refl _ _)
+
+theorem foldl_dropSr_step (clones : List SendRequest) (s : Streams) :
+    Step none s (clones.foldl (fun s sr =>
+      let s := s.dropHandle
+      match sr.pending with | some p => s.dropStreamRef p | none => s) s) := by
+  induction clones generalizing s with
+  | nil => exact Step.refl _ _
+  | cons sr l ih =>
+    rw [List.foldl_cons]
+    exact (dropSr_step s sr).trans (ih _)
+
+/-- what is left of the stream layer after the harness's `ConnKind::Client(conn, sr, clones)` was dropped -/
+theorem dropConnKind_streams (c : Conn) (sr : Option SendRequest) (clones : List SendRequest) :
+    Step none (c.streams.recvEof true) (dropConnKind c sr clones).streams := by
+  unfold dropConnKind
+  simp only
+  have h1 : Step none (c.streams.recvEof true) ({ c with streams := c.streams.recvEof true } : Conn).dropUserPingsRx.streams := by
+    unfold Conn.dropUserPingsRx
+    split
+    · exact Step.refl _ _
+    · exact wake_acc _ (Step.refl _ _)
+  refine h1.trans ?_
+  refine (dropHandle_acc (Step.refl _ _)).trans ?_
+  refine Step.trans ?_ (foldl_dropSr_step clones _)
+  split
+  · exact dropSr_step _ _
+  · exact Step.refl _ _
+
+/-- **`Drop for Connection`** (and the drop of the `SendRequest` handles with it): every stream that was
+    linked in the id map is released or `Resolved`, and every waker that was parked on it is woken —
+    however the connection ended before, whatever the streams were doing. -/
+theorem dropConnKind_resolves (c : Conn) (sr : Option SendRequest) (clones : List SendRequest) (hg : Good c.streams) :
+    ∀ e ∈ c.streams.store.ids, ∀ a, c.streams.store.get? e.2 = some a →
+      (dropConnKind c sr clones).streams.store.get? e.2 = none ∨
+      ∃ a', (dropConnKind c sr clones).streams.store.get? e.2 = some a' ∧ Resolved a' ∧
+        ∀ t, (a.sendTask = some t ∨ a.openTask = some t ∨ a.recvTask = some t ∨ a.pushTask = some t) →
+          t ∈ newWakes c.streams (dropConnKind c sr clones).streams := by
+  intro e he a ha
+  have h1 := (recvEof_all c.streams hg.ids hg.bounded true).2 e he a ha
+  have hs1 : Step none c.streams (c.streams.recvEof true) := recvEof_acc true (Step.refl _ _)
+  have hs2 := dropConnKind_streams c sr clones
+  have hk : e.2 < (c.streams.recvEof true).store.nextKey := Nat.lt_of_lt_of_le (hg.linked e he) hs1.nextKey
+  have hd : Done e.2 (c.streams.recvEof true) := by
+    rcases h1 with h | ⟨a', ha', hres, _⟩
+    · exact Or.inl h
+    · exact Or.inr ⟨a', ha', hres⟩
+  rcases hd.of_step hk hs2 with h | ⟨b, hb, hres⟩
+  · exact Or.inl h
+  · refine Or.inr ⟨b, hb, hres, ?_⟩
+    have hs := hs1.trans hs2
+    rcases hs.keep e.2 a (hg.bounded.get? ha) ha with h | ⟨b', hb', hab⟩
+    · rw [h] at hb; cases hb
+    · rw [hb'] at hb; cases hb
+      obtain ⟨_, r1, r2, r3, r4⟩ := hres
+      intro t ht
+      rcases ht with ht | ht | ht | ht
+      · exact SlotStep.woken_of_none (r1 ▸ hab.sendTask) ht
+      · exact SlotStep.woken_of_none (r2 ▸ hab.openTask) ht
+      · exact SlotStep.woken_of_none (r3 ▸ hab.recvTask) ht
+      · exact SlotStep.woken_of_none (r4 ▸ hab.pushTask) ht
+
 end H2V.Lemmas.ConnWakeP
